@@ -195,7 +195,9 @@ func runC35(c *Ctx) {
 
 	// (3) compare-and-swap shape
 	if cv := c.MustFunc(pkgGate + ":(*Gate).ApplyLiveConfigIfVersion"); cv != nil {
-		for _, ci := range callsIn(cv, func(n string, cc *ssa.CallCommon) bool { return strings.HasSuffix(n, "Gate).applyLiveConfigLocked") }) {
+		for _, ci := range callsIn(cv, func(n string, cc *ssa.CallCommon) bool {
+			return strings.HasSuffix(n, "Gate).applyLiveConfigLocked") || strings.HasSuffix(n, "Gate).ApplyLiveConfig")
+		}) {
 			var loadInstr ssa.Instruction
 			ok, n := MustCross(ci, func(e Edge, cond ssa.Value, truth bool) bool {
 				bo, ok := cond.(*ssa.BinOp)
